@@ -356,6 +356,38 @@ def check_written(ctx, case, obs, d, data, enc, fo, via):
 
 
 # --------------------------------------------------------------------------------------------------
+# the instances C12_roundtrip_pretty / _wrapped are about: ser_root_fmt (chunk models of Ws/Pretty.v, Ws/Wrap.v at
+# the document root) is what serialize_root writes
+
+FMT_ROOTS = [1, 3, 4, 5, 6, 10]        # indices into ROOTS: no namespaces (the domain of the chunk models)
+
+
+def check_formatted(ctx):
+    req = REQ + "From Delb.Xml Require DocPretty.\nFrom Coq Require Import ZArith.\n"
+    terms, runs = [], []
+    for ri in FMT_ROOTS:
+        for fo in FORMATS[1:]:
+            with no_gc():
+                d = Document(ROOTS[ri], ParserOptions(reduce_whitespace=True))
+                t = extract(d.root)
+                chunk = root_chunk(d, fo)
+            f = ("(DocPretty.FWrap %s %s %d%%Z)" % (cstr(fo[1]), cbool(fo[0]), fo[2]) if fo[2]
+                 else "(DocPretty.FPretty %s %s)" % (cstr(fo[1]), cbool(fo[0])))
+            terms.append("DocPretty.ser_root_fmt %s %s" % (f, cnode(t)))
+            runs.append((ROOTS[ri], fo, chunk))
+    vals = ctx.coq_eval("c12_fm_%d" % os.getpid(), req, terms, chunk=20)
+    for (src, fo, chunk), v in zip(runs, vals):
+        ctx.count(1, "formatted-root/" + kind_of(fo))
+        if v is None:
+            ctx.mismatch("ser_root_fmt evaluation", "coqc failed on the case file")
+        elif decode_points(v) != chunk:
+            ctx.mismatch("ser_root_fmt (Ws/Pretty.v, Ws/Wrap.v at the document root) vs serialize_root",
+                         {"root": src, "format": fo, "impl": chunk[:300], "model": decode_points(v)[:300]})
+        else:
+            ctx.nontrivial_case(("formatted-root", src, fo))
+
+
+# --------------------------------------------------------------------------------------------------
 # the model's document reader (with the toy root layer <r/>) vs lxml
 
 DECLS = ["", '<?xml version="1.0" encoding="UTF-8"?>', "<?xml version='1.0' encoding='utf-8'?>", '<?xml version="1.0"?>',
@@ -591,7 +623,10 @@ def run(ctx, args):
         "C12 hypotheses (Section variables, listed in Props/C12.v): H_codec - Python's codec and libxml2's decoder are "
         "mutually inverse for utf-8, utf-16, iso-8859-1, ascii on streams starting with the declaration (exercised on "
         "every run: model stream encoded with the codec = bytes written, bytes re-read by libxml2); H_root - root "
-        "serializer / element reader round trip = property C02/C03; H_strip_root - libxml2's remove_comments / remove_pis "
+        "serializer / element reader round trip: proved from C02 for the plain serializer (C12_roundtrip_plain); for the "
+        "formatting serializers replaced by C03's theorems plus the bridging hypothesis H_render_seen (the reference reader "
+        "applied to `render c` yields `seen c`; instantiated by computation in Props/C12.v, tied by C03's correspondence "
+        "check which compares `seen` with the real parser's tree); H_strip_root - libxml2's remove_comments / remove_pis "
         "inside the root (checked against strip_node evaluated in Coq)",
         "translate/gen_doc.py (AST of Document.__serialize, __str__ of comments/PIs, CommentNode._validate_content, "
         "_get_serializer -> Gen/GenDoc.v)",
@@ -622,6 +657,7 @@ def run(ctx, args):
             for j, (enc, nl, fo) in enumerate(configs(ctx.rng, per_doc, not quick)):
                 ser_cases.append(dict(dc, enc=enc, nl=nl, fo=fo, also_write=(i + j) % 3 == 0, also_str=(i + j) % 2 == 0 or not quick))
         check_serialize(ctx, ser_cases)
+        check_formatted(ctx)
         streams = []
         for _ in range(260 if quick else 4000):
             s = gen_stream(ctx.rng)
